@@ -2,7 +2,7 @@ import SaModel.Lemmas.C01Rows
 /-
 Raw `serialize_key` / `serialize_value` call streams (`SVal.mapRaw`) in R2: the vocabulary.
 
-* `structStreamsAlternate x` — the decidable exclusion that replaces the blanket `noRaw` of R2 / R3 / `C01_build_decode`:
+* `structStreamsAlternate x` — the decidable hypothesis of R2 / R3 / `C01_build_decode` on the value (weaker than `noRaw`, `noRaw_ssa`):
   every raw stream inside `x` alternates key, value, key, value …  (= `!Spec.containsMalformed x`, theorem
   `structStreamsAlternate_eq`).  At a MAP position it excludes nothing that matters: a Map builder refuses every other
   stream (`map_refuses_non_alternating`), so no successful push is lost.  At a STRUCT position it is needed: a struct
